@@ -5,6 +5,18 @@ import (
 )
 
 var registry = map[string]*Property{
+	"C06": {
+		Title:      "No input can crash, hang or exhaust memory",
+		Decided:    "NIL",
+		NotDecided: "bounds",
+		Technique:  "SSA must-dataflow with inferred preconditions",
+		DesignRef:  "DESIGN.md §3.2, §4 C06",
+		Rules: []Rule{
+			{"NIL-ACC", rules.NilAcc(rules.Scope{Name: "all"}, 1)},
+			{"NIL-ARG", rules.NilArg(rules.Scope{Name: "all"}, 0)},
+			{"NIL-FIELD", rules.NilField(rules.Scope{Name: "all"}, 1)},
+		},
+	},
 	"C07": {
 		Title:      "Malformed input ends in an error, and the error is permanent",
 		Decided:    "ERR-ABSORB-R, ERR-STICKY-R",
